@@ -203,6 +203,15 @@ Extraction "model.ml"
   replay_dir
   best_pivots_dir
   count_la
+  legal_pivots_symb
+  one_pivot_each
+  pivots_by_node
+  split_heur
+  run_observed_dm
+  model_pivots
+  legal_pivotsb
+  run_observed_dir
+  model_pivots_dir
   sort_pipeline
   sort_spec
   SortM.boundaries
